@@ -42,7 +42,9 @@ def _kinds(names, thorough):
             kinds.append(("list", (DEC1, DEC2, t)))
         for t in targets:
             kinds.append(("retdrop", t))  # return_command that swallows the user's args
-        kinds.append(("dec",))
+        # (a table entry that is itself a decorator alias is not enumerated: `Aliases.get` and
+        # SubprocSpec.resolve_decorators treat a decorator typed as the command head differently by
+        # design - the two fixed decorator aliases @d1/@d2 cover decorator collection)
     return kinds
 
 
